@@ -82,8 +82,20 @@ C13_SurvivorsUndisturbed(e) ==
           \E q \in Procs(e.after) : q.base = p.base /\ q.num = p.num /\ q.status = p.status
 C13_RemovedTerminated(e) ==
   Done13(e) => \A c \in AliveCmds(e.after) : c.base = e.base => c.num < e.n
+\* added replicas are launched - unless the process waits for a dependency that has not completed (C01 for scaled
+\* replicas): then they are pending and nothing of the process has been launched
 C13_AddedLaunched(e) ==
-  Done13(e) => \A r \in e.cur..(e.n - 1) : \E c \in AliveCmds(e.after) : c.base = e.base /\ c.num = r
+  Done13(e) =>
+     IF e.gated
+     THEN /\ \A r \in e.cur..(e.n - 1) : \E p \in Procs(e.after) : p.base = e.base /\ p.num = r /\ p.status = "Pending"
+          /\ { c \in Cmds(e.after) : c.base = e.base } = {}
+     ELSE \A r \in e.cur..(e.n - 1) : \E c \in AliveCmds(e.after) : c.base = e.base /\ c.num = r
+\* once the dependency has completed every current replica is launched, and only after that completion
+C13_ReleasedAfterDependency(e) ==
+  LET gates == { c \in Cmds(e.final) : c.base = e.gate } IN
+  /\ gates # {} /\ \A g \in gates : ~g.alive
+  /\ \A r \in 0..(e.n - 1) : \E c \in AliveCmds(e.final) : c.base = e.base /\ c.num = r
+  /\ \A c \in Cmds(e.final) : c.base = e.base => \A g \in gates : c.launchSeq > g.exitSeq
 C13_RejectsLeaveStateUnchanged(e) ==
   e.err => /\ e.after.procs = e.before.procs /\ e.after.keys = e.before.keys
            /\ { c.serial : c \in AliveCmds(e.after) } = { c.serial : c \in AliveCmds(e.before) }
@@ -129,12 +141,14 @@ C14_ChangedReplaced(e) ==
           LET c2 == CmdBySerial(e.after, c.serial) IN
             /\ ~c2.alive /\ c2.signalled
             /\ \A nw \in NewCmdsOf(e, ch.name) : nw.launchSeq > c2.exitSeq
-     /\ \E nw \in NewCmdsOf(e, ch.name) :
-          /\ nw.alive
-          /\ nw.argv = ExpectOf(e, ch.name).argv
-          /\ nw.dir = ExpectOf(e, ch.name).dir
-          /\ ValK(nw.env, "UW") = ExpectOf(e, ch.name).uw
-     /\ Cardinality(NewCmdsOf(e, ch.name)) = 1
+     /\ IF ch.gated
+        THEN NewCmdsOf(e, ch.name) = {}      \* the new instance waits for a dependency that has not completed
+        ELSE /\ \E nw \in NewCmdsOf(e, ch.name) :
+                  /\ nw.alive
+                  /\ nw.argv = ExpectOf(e, ch.name).argv
+                  /\ nw.dir = ExpectOf(e, ch.name).dir
+                  /\ ValK(nw.env, "UW") = ExpectOf(e, ch.name).uw
+             /\ Cardinality(NewCmdsOf(e, ch.name)) = 1
 C14_RemovedGone(e) ==
   ~e.err => \A ch \in Ch(e, "removed") :
      /\ AliveOf(e.after, ch.name) = {} /\ ch.name \notin { p.rname : p \in Procs(e.after) }
@@ -149,9 +163,14 @@ C14_NoOldConfigLaunchedLater(e) ==
           \A c \in { x \in Cmds(e.later) : x.base = ch.name /\ (x.serial \notin Serials(e.after) \/ x.alive) } :
              c.argv = ExpectOf(e, ch.name).argv /\ ValK(c.env, "UW") = ExpectOf(e, ch.name).uw
 
+\* added processes are launched - unless they wait for a dependency that has not completed (C01 for added processes)
 C14_AddedLaunched(e) ==
   ~e.err => \A ch \in Ch(e, "added") :
-     /\ AliveOf(e.after, ch.name) # {} /\ ch.name \in { p.rname : p \in Procs(e.after) }
+     /\ ch.name \in { p.rname : p \in Procs(e.after) }
+     /\ IF ch.gated
+        THEN /\ { c \in Cmds(e.after) : c.base = ch.name } = {} /\ { c \in Cmds(e.later) : c.base = ch.name } = {}
+             /\ \A p \in Procs(e.later) : p.rname = ch.name => p.status = "Pending"
+        ELSE AliveOf(e.after, ch.name) # {}
 C14_StatusMapExact(e) ==
   ~e.err =>
      /\ \A ch \in Ch(e, "added") : StatusOf(e, ch.name) = "added"
@@ -175,7 +194,9 @@ UpdateViolated(e) ==
           [] n = "C14_ValidUpdateSucceeds" -> C14_ValidUpdateSucceeds(e)
           [] n = "C14_NoOldConfigLaunchedLater" -> C14_NoOldConfigLaunchedLater(e)) }
 
+ScaleGateViolated(e) == IF C13_ReleasedAfterDependency(e) THEN {} ELSE {"C13_ReleasedAfterDependency"}
 ScaleDetail(e) ==
-  IF e.kind = "scale" THEN [name |-> e.name, n |-> e.n, cur |-> e.cur, err |-> e.err, someFinished |-> e.someFinished]
-  ELSE [err |-> e.err, kinds |-> { <<c.kind, c.fields>> : c \in RangeS(e.changes) }]
+  IF e.kind = "scale" THEN [name |-> e.name, n |-> e.n, cur |-> e.cur, err |-> e.err, someFinished |-> e.someFinished, gated |-> e.gated]
+  ELSE IF e.kind = "scalegate" THEN [n |-> e.n, cmds |-> { <<c.base, c.num, c.alive, c.launchSeq, c.exitSeq>> : c \in Cmds(e.final) }]
+  ELSE [err |-> e.err, kinds |-> { <<c.kind, c.fields, c.gated>> : c \in RangeS(e.changes) }]
 =============================================================================
